@@ -36,7 +36,9 @@ KIND_NAMES = {'oF': 'plain', 'oR': 'rotating', 'oFR': 'both', 'o(F)': 'nested', 
               'FLUC': 'fluent: pipeline().filterCategory(debug only).sendToFile(trace, limit).end().sendToFile(app)',
               'FLUB': 'fluent: sendToFile(/dev/full).sendToFile(app)', 'onF': 'top-level filter rejecting the fatal message',
               'olF': 'LevelFilter(warning) before the file sink', 'o(eF)(xR)': 'even/odd ids split over two files',
-              'oB(F)R': 'full device before a nested and a rotating sink', 'o(gF)F': 'debug-only trace file next to the main file'}
+              'oB(F)R': 'full device before a nested and a rotating sink', 'oNFR': 'null handler entry before the file sinks',
+              'N(FN)NF': 'null handler entries at both levels', 'SoF': 'slow handler keeps another thread inside the logger',
+              'oS(gF)R': 'slow handler, trace file and rotating sink', 'o(gF)F': 'debug-only trace file next to the main file'}
 CHUNK = 16384
 
 
